@@ -68,6 +68,10 @@ PAGES = {
     "nw_in_template": "{{nw|p}} and <nowiki>''q''</nowiki>",
     "nw_in_template2": "<nowiki>first</nowiki>{{nw}}{{a|<nowiki>|</nowiki>}}",
     "open_pre": "an example:\n<pre>\nfoo(bar)\n",
+    # nested far beyond what the parser can follow: the call raises RecursionError (or reports the depth limit); whatever it
+    # was in the middle of must not be left behind for the next page
+    "too_deep": "{{a|" * 600 + "x" + "}}" * 600,
+    "too_deep_links": "* [[a|" * 400 + "x" + "]]" * 400,
 }
 for _c in CHANNELS:
     PAGES["chan_" + _c] = "{{#invoke:h|probe_%s}}{{#invoke:h|mutate_%s}}{{#invoke:h|probe_%s}}" % (_c, _c, _c)
@@ -98,7 +102,7 @@ def events(tier):
     ev = []
     for p in PAGES:
         ev.append(("page", p, "expand"))
-    for p in ("soup1", "soup2", "deflist", "templates"):
+    for p in ("soup1", "soup2", "deflist", "templates", "too_deep", "too_deep_links"):
         ev.append(("page", p, "parse"))
     for p in ("templates", "inv_ok", "soup2", "nw_in_template"):
         ev.append(("page", p, "parse_expand_all"))
@@ -203,10 +207,24 @@ def in_child(fn, *a):
             os.close(r)
             try:
                 res = ("ok", fn(*a))
+                data = _json.dumps(res, default=str)
+            except RecursionError:
+                # a tree too deep to serialise: flatten it iteratively (same information, no nesting)
+                flat, stack = [], [res[1]]
+                while stack:
+                    x = stack.pop()
+                    if isinstance(x, dict):
+                        stack.extend(sorted(x.items(), key=str))
+                    elif isinstance(x, (list, tuple)):
+                        flat.append("[%d" % len(x))
+                        stack.extend(reversed(x))
+                    else:
+                        flat.append(str(x))
+                data = _json.dumps(("ok", {"result": "FLAT " + " ".join(flat)[:20000]}))
             except BaseException as e:  # noqa: BLE001
-                res = ("exc", type(e).__name__ + ": " + str(e)[:200])
+                data = _json.dumps(("exc", type(e).__name__ + ": " + str(e)[:200]))
             with os.fdopen(w, "w") as f:
-                _json.dump(res, f, default=str)
+                f.write(data)
         finally:
             os._exit(0)
     os.close(w)
